@@ -163,6 +163,37 @@ type J10 struct {
 	V  CV            `serix:"v"`
 }
 
+// NAMED types of every scalar kind, a named slice, array and map type: the decoder must convert, not assume the basic type
+type (
+	NStr  string
+	NBool bool
+	NU8   uint8
+	NI32  int32
+	NU64  uint64
+	NI64  int64
+	NF32  float32
+	NF64  float64
+	NSl   []uint16
+	NArr  [2]uint16
+	NMap  map[NStr]NU8
+)
+
+type J11 struct {
+	S  NStr   `serix:"s,lenPrefix=uint8,minLen=1,maxLen=8"`
+	B  NBool  `serix:"b"`
+	U  NU8    `serix:"u"`
+	I  NI32   `serix:"i"`
+	UL NU64   `serix:"ul"`
+	IL NI64   `serix:"il"`
+	F  NF32   `serix:"f"`
+	D  NF64   `serix:"d"`
+	L  NSl    `serix:"l,lenPrefix=uint8,maxLen=3"`
+	A  NArr   `serix:"a"`
+	M  NMap   `serix:"m,lenPrefix=uint8,omitempty"`
+	PS *NStr  `serix:"ps,optional"`
+	LS []NStr `serix:"ls,lenPrefix=uint8,omitempty"`
+}
+
 func key(s string) string { return "\"" + hex.EncodeToString([]byte(s)) }
 
 func fld(k, flag, ty string) string { return key(k) + " " + flag + " " + ty }
@@ -184,8 +215,10 @@ var (
 	sJ6     = st("-", fld("sh", "r", sShape), fld("shs", "r", "sl 0 0 "+sShape), fld("osh", "o", sShape))
 	sJ7     = st("-", fld("p", "r", "pharr "+key("id")))
 	sJ8     = st("-", fld("pu", "o", "uns"), fld("an", "o", "ifu"), fld("c", "o", "uns"))
-	sJ10    = st("-", fld("a", "r", "cstr"), fld("p", "r", "cstr"), fld("o", "o", "cstr"), fld("l", "r", "sl 0 0 cstr"), fld("lp", "o", "sl 0 0 cstr"), fld("m", "o", "map 0 0 str 0 0 cstr"), fld("v", "r", "cnum"))
-	sJ9     = st("-", fld("v", "r", "pharr "+key("v")), fld("bl", "r", "ohex "+key("bl")+" 1 3"), fld("tg", "o", "ohex "+key("tg")+" 0 0"), fld("pl", "r", "hex 1 3"),
+	sJ11    = st("-", fld("s", "r", "str 1 8"), fld("b", "r", "bool"), fld("u", "r", "f64"), fld("i", "r", "f64"), fld("ul", "r", "u64"), fld("il", "r", "i64"), fld("f", "r", "flt 32"), fld("d", "r", "flt 64"),
+		fld("l", "r", "sl 0 3 f64"), fld("a", "r", "arr 2 f64"), fld("m", "o", "map 0 0 str 0 0 f64"), fld("ps", "o", "uns"), fld("ls", "o", "sl 0 0 str 0 0"))
+	sJ10 = st("-", fld("a", "r", "cstr"), fld("p", "r", "cstr"), fld("o", "o", "cstr"), fld("l", "r", "sl 0 0 cstr"), fld("lp", "o", "sl 0 0 cstr"), fld("m", "o", "map 0 0 str 0 0 cstr"), fld("v", "r", "cnum"))
+	sJ9  = st("-", fld("v", "r", "pharr "+key("v")), fld("bl", "r", "ohex "+key("bl")+" 1 3"), fld("tg", "o", "ohex "+key("tg")+" 0 0"), fld("pl", "r", "hex 1 3"),
 		fld("vs", "r", "sl 0 0 pharr "+key("id")), fld("bs", "o", "sl 0 0 ohex "+key("data")+" 1 3"))
 )
 
@@ -325,6 +358,21 @@ var jtargets = []jtarget{
 	}},
 	{"J8", sJ8, func() any { return &J8{} }, func(rng *hx.Rng) any {
 		return map[string]any{}
+	}},
+	{"J11", sJ11, func() any { return &J11{} }, func(rng *hx.Rng) any {
+		v := &J11{S: NStr(rstr(rng, 1, 8)), B: NBool(rng.Bool()), U: NU8(rng.U64()), I: NI32(rng.U64()), UL: NU64(rng.U64() >> uint(rng.Intn(64))), IL: NI64(int64(rng.U64()) >> uint(rng.Intn(64))),
+			F: NF32(rng.Intn(2000)-1000) / 8, D: NF64(rng.Intn(200000)-100000) / 64, L: NSl{}, A: NArr{uint16(rng.U64()), uint16(rng.U64())}}
+		for i := rng.Range(0, 3); i > 0; i-- {
+			v.L = append(v.L, uint16(rng.U64()))
+		}
+		if rng.Bool() {
+			v.M = NMap{NStr(rstr(rng, 0, 3)): NU8(rng.U64())}
+		}
+		for i := rng.Range(0, 2); i > 0; i-- {
+			v.LS = append(v.LS, NStr(rstr(rng, 0, 3)))
+		}
+
+		return v
 	}},
 	{"J10", sJ10, func() any { return &J10{} }, func(rng *hx.Rng) any {
 		v := &J10{A: CJ{rstr(rng, 0, 4)}, P: &CJ{rstr(rng, 0, 4)}, L: []CJ{}, V: CV(rng.U64())}
